@@ -1,11 +1,11 @@
 """C20 -- introspection commands are read-only and agree with run   (models M2 "status" + Model/Intro.lean; DESIGN §5 C20)
 
 (T) lean/DoitModel/Props/C20.lean: C20_frame (+ _history, _identity, C20_only_documented_removal, C20_no_db_access,
-    C20_clean_dry_run), C20_getlog_agrees_partial (exact characterisation; `C20_getlog_agrees_full` is false:
-    C20_getlog_counterexample + the two history counterexamples), C20_list_status_agrees,
-    C20_decision_is_what_run_does, C20_list_lines_agree / _threaded, C20_info_status_agrees_partial,
-    C20_info_ignored_agrees, C20_info_upToDate_iff, C20_pinned_info_ignored_counterexample (the tree before the
-    fix: commit), C20_info_counterexample, C20_reasons_true, C20_reasons_complete, C20_reasons_changed_is_true.
+    C20_clean_dry_run), C20_getlog_agrees_full (+ _history, _on_upToDate), C20_list_status_agrees,
+    C20_decision_is_what_run_does, C20_list_lines_agree / _threaded, C20_info_status_agrees_full,
+    C20_info_agrees_with_list, C20_info_ignored_agrees, C20_info_upToDate_iff, C20_reasons_true, C20_reasons_complete,
+    C20_reasons_changed_is_true; the trees before the three fix: commits: C20_pinned_getlog_agrees_iff,
+    C20_pinned_getlog_{error_overwritten,error_hidden,}_counterexample, C20_pinned_info_{ignored_,}counterexample.
 (K) statuslib histories are executed by the real doit (statuslib's own correspondence of the history is evaluated: a
     history that diverges from Model/Status.lean in one of its own ops is counted and its later probes are skipped --
     that correspondence is reported by C03/C04/C13, which own it); at
@@ -64,18 +64,22 @@ META = {
                   'removed as a whole; the write trace consists of such removals only, and is empty for help / dumpdb '
                   '/ tabcompletion / list without -s / info --no-status / clean -n.  `list -s` shows for each task '
                   'the decision of select_task in the state the line is printed in, which is what runTask then does; '
-                  'get_status(get_log=True) equals get_status(get_log=False) exactly outside two characterised '
-                  'situations (both need a missing file dependency); the reasons info prints are each true and are '
+                  'get_status(get_log=True) gives the status of get_status(get_log=False), and `info` shows the '
+                  'decision of run (ignore / up-to-date / run / error), in every state without a saved state of the '
+                  'wrong shape (unconditionally after every history without a checker switch, and always on '
+                  'up-to-date); the reasons info prints are each true (changed_file_dep exactly w.r.t. what the last '
+                  'recorded execution saw) and are '
                   'empty exactly when it says up-to-date.  The model is tied to doit on every run by executing '
                   'every read-only command on copies of scratch trees reached by generated and small-scope '
                   'exhaustive histories (3 backends x 2 checkers) and diffing letters, words, reasons, DB write '
                   'calls and DB content; the monitors evaluate the property statement on the implementation alone '
                   '(snapshots around the command, event log, and a real `doit run` as the oracle of the decision).',
-    'level_note': 'C20_getlog_agrees_full and C20_info_status_agrees_full are FALSE of the code (counterexample '
-                  'theorems; open findings info-error-overwritten-by-run, info-error-where-run-executes; '
-                  'the third design-time item, info never showing "ignore", is repaired in /repo and kept as '
-                  'C20_pinned_info_ignored_counterexample + seeded/revert-F-C20-info-ignore); the theorems proved are the _partial ones with the exact '
-                  'exception set.  Which backend persists the documented removal (only dbm: write-through remove, '
+    'level_note': 'All theorems are at full strength; the three design-time items of F-C20 (info never showed ignore; '
+                  'a later changed_file_dep overwrote error; an early run hid a later error) are repaired in /repo and '
+                  'kept as C20_pinned_*_counterexample theorems over infoShownPinned / logStatusPinned and as '
+                  'seeded/revert-F-C20-info-ignore, seeded/revert-F-C20-info-status.  Hypothesis of the two _full '
+                  'theorems: no saved state of the wrong shape (the unhandled TypeError of MD5Checker on a '
+                  'TimestampChecker state, findings/pending/C03-md5-on-timestamp-state.md).  Which backend persists the documented removal (only dbm: write-through remove, '
                   'the commands never close()) is observed, not modelled.  The content of help / tabcompletion / '
                   'dumpdb output is not modelled (trivial frame facts; observation only).  reasons_true is about the '
                   'saved state (signatures in the DB), the link of the saved state to what the last execution saw is '
@@ -120,23 +124,7 @@ DB_SUFFIX = {'json': {''}, 'dbm': {'.dat', '.dir', '.bak'}, 'sqlite3': {'', '-jo
 # ----------------------------------------------------------------------------------------------
 # signatures of the open findings
 
-def _sig_info_overwritten(w):
-    r = w.get('reasons') or {}
-    return (w.get('clause') == 'agree-info' and w.get('ran') == 'error' and w.get('shown') == 'run'
-            and bool(r.get('missingDep')) and bool(r.get('changed')))
-
-
-def _sig_info_hidden(w):
-    r = w.get('reasons') or {}
-    early = bool(r.get('utdFalse')) or bool(r.get('missingTarget')) or bool(r.get('checkerChanged')) or r.get('noDeps')
-    return (w.get('clause') == 'agree-info' and w.get('ran') == 'run' and w.get('shown') == 'error'
-            and bool(r.get('missingDep')) and not r.get('changed') and bool(early))
-
-
-SIGNATURES = {
-    'info-error-overwritten-by-run': _sig_info_overwritten,
-    'info-error-where-run-executes': _sig_info_hidden,
-}
+SIGNATURES = {}     # no open finding: the three design-time items of F-C20 are repaired in /repo (fixed: lines)
 
 
 # ----------------------------------------------------------------------------------------------
@@ -171,9 +159,9 @@ class C20World(statuslib.World):
                 d = inner_creator()
                 inner = d['actions'][0]
 
-                def action(inner=inner, t=t):
+                def action(v=None, inner=inner, t=t):      # `v`: the getargs value statuslib's action takes
                     world.events.append(('action', t))
-                    return inner()
+                    return inner(v)
 
                 def plain_clean(t=t):
                     world.events.append(('clean', t))
@@ -216,6 +204,11 @@ class C20World(statuslib.World):
                     world.events.append(('teardown', t))
 
                 d['actions'] = [action]
+                if world.group():                          # names of other tasks: sub-tasks are `g:t<i>`
+                    if d.get('task_dep'):
+                        d['task_dep'] = [world.rname(int(x[1:])) for x in d['task_dep']]
+                    if d.get('getargs'):
+                        d['getargs'] = {k: (world.rname(int(v[0][1:])), v[1]) for k, v in d['getargs'].items()}
                 d['teardown'] = [teardown]
                 d['doc'] = 'doc of t%d' % t
                 kind = kinds.get(str(t), 'none')
@@ -1363,11 +1356,20 @@ def process_batch(batch):
             o.divs = keep
         if v.divergence:
             # the correspondence of the *history* (run / forget / ignore / reset-dep ... against Model/Status.lean) is
-            # owned and reported by C03/C04/C13, which run it on far more histories; here the probes after the
-            # diverging op are skipped (the model state is no longer the implementation's) and the event is counted
+            # owned and reported by C03/C04/C13, which run it on far more histories -- provided the same history
+            # diverges under plain statuslib too.  If it does not, this module's world (event log, clean attributes,
+            # sub-task naming) changed the behaviour of the history: that is a defect of this check and is reported.
             i, what, impl, model = v.divergence
-            st.count('history-correspondence(M2, owned by C03/C04/C13):diverged')
-            st.count('history-correspondence(M2):' + re.sub(r'op \d+', 'op N', str(what))[:80])
+            plain = statuslib.evaluate([{k: x for k, x in statuslib.strip(case).items() if k != 'hashseed'}])[0]
+            if plain.divergence:
+                st.count('history-correspondence(M2, owned by C03/C04/C13):diverged')
+                st.count('history-correspondence(M2):' + re.sub(r'op \d+', 'op N', str(what))[:80])
+            else:
+                st.divergence({'case': case_key(case), 'rendered': render(case), 'at_op': i, 'impl': impl, 'model': model,
+                               'origin': origin,
+                               'stderr': (v.obs[i].get('stderr') if v.obs and i < len(v.obs) else None)},
+                              'the C20 world (event log / clean attributes / sub-task naming) changes the history: '
+                              + str(what))
         if o.fails:
             known_f = [f for f in o.fails if any(pred(f) for pred in SIGNATURES.values())]
             fresh_f = [f for f in o.fails if f not in known_f]
